@@ -8,6 +8,8 @@ import (
 	"sort"
 	"strings"
 
+	"google.golang.org/protobuf/encoding/protowire"
+
 	"verif/checker/internal/core"
 	"verif/checker/internal/gen"
 	"verif/checker/internal/source"
@@ -98,6 +100,62 @@ func RunS2(c *core.Ctx) {
 		}
 	}
 	c.Stat("S2 packages type-checked", nPk)
+	// corpus coverage: every kind in every legal shape, every map key kind, every tag width
+	cells := map[string]bool{}
+	widths := map[int]bool{}
+	for _, g := range s.S2 {
+		for _, m := range g.Msgs {
+			for _, f := range m.Fields {
+				fd := f.Desc
+				widths[len(protowire.AppendTag(nil, protowire.Number(fd.Number()), 0))] = true
+				switch {
+				case fd.IsMap():
+					cells["mapkey/"+fd.MapKey().Kind().String()] = true
+					cells["mapvalue/"+fd.MapValue().Kind().String()] = true
+				case fd.IsList() && fd.IsPacked():
+					cells["packed/"+fd.Kind().String()] = true
+				case fd.IsList():
+					cells["repeated/"+fd.Kind().String()] = true
+				case fd.ContainingOneof() != nil:
+					cells["oneof/"+fd.Kind().String()] = true
+				default:
+					cells["singular/"+fd.Kind().String()] = true
+				}
+			}
+		}
+	}
+	all := []string{"bool", "enum", "int32", "sint32", "uint32", "int64", "sint64", "uint64", "sfixed32", "fixed32", "float", "sfixed64", "fixed64", "double", "string", "bytes", "message"}
+	var missing []string
+	for _, k := range all {
+		for _, sh := range []string{"singular", "oneof", "mapvalue"} {
+			if !cells[sh+"/"+k] {
+				missing = append(missing, sh+"/"+k)
+			}
+		}
+		numeric := k != "string" && k != "bytes" && k != "message"
+		if numeric {
+			if !cells["packed/"+k] {
+				missing = append(missing, "packed/"+k)
+			}
+			if !cells["repeated/"+k] {
+				missing = append(missing, "unpacked/"+k)
+			}
+		} else if !cells["repeated/"+k] {
+			missing = append(missing, "repeated/"+k)
+		}
+	}
+	for _, k := range []string{"bool", "int32", "sint32", "uint32", "int64", "sint64", "uint64", "sfixed32", "fixed32", "sfixed64", "fixed64", "string"} {
+		if !cells["mapkey/"+k] {
+			missing = append(missing, "mapkey/"+k)
+		}
+	}
+	for w := 1; w <= 5; w++ {
+		if !widths[w] {
+			missing = append(missing, fmt.Sprintf("tag width %d", w))
+		}
+	}
+	c.Check(len(missing) == 0, "GEN.matrix", "corpus coverage", fmt.Sprintf("%d kind x shape cells, all map key kinds, tag widths 1..5 are present in the regenerated corpus", len(cells)),
+		"the regenerated corpus lacks: "+strings.Join(missing, ", ")+" (a template branch would go unanalysed)", "", "S2")
 	if c.Tier == "thorough" {
 		pk386, err := s.WS.LoadGenerated("386")
 		if err != nil {
